@@ -285,6 +285,70 @@ func minimalInvalidations(a cors.Config) []cors.Config {
 	add(func(c *cors.Config) { c.MaxAgeInSeconds = -1; c.Methods = append(c.Methods, "CONNECT") })
 	add(func(c *cors.Config) { c.MaxAgeInSeconds = -1; c.Origins = append(c.Origins, "https://example.com/") })
 	add(func(c *cors.Config) { c.MaxAgeInSeconds = -1; c.PreflightSuccessStatus = 199 })
+	// the current lists with their elements joined into ONE element by a separator a serialisation might use: the
+	// result is a different, invalid configuration that prints like the current one
+	for _, sep := range []string{",", ", ", ";", " ", "\x00", "\n"} {
+		sep := sep
+		if len(a.Origins) >= 2 {
+			add(func(c *cors.Config) { c.Origins = []string{strings.Join(c.Origins, sep)} })
+		}
+		if len(a.Methods) >= 2 {
+			add(func(c *cors.Config) { c.Methods = []string{strings.Join(c.Methods, sep)} })
+		}
+		if len(a.RequestHeaders) >= 2 {
+			add(func(c *cors.Config) { c.RequestHeaders = []string{strings.Join(c.RequestHeaders, sep)} })
+		}
+		if len(a.ResponseHeaders) >= 2 {
+			add(func(c *cors.Config) { c.ResponseHeaders = []string{strings.Join(c.ResponseHeaders, sep)} })
+		}
+	}
+	// numbers of violations at the boundaries of narrow counters (255, 256, 257, 512 offending origin patterns,
+	// methods or header names next to otherwise changed valid fields)
+	for _, n := range []int{255, 256, 257, 512} {
+		n := n
+		add(func(c *cors.Config) {
+			c.Origins = append([]string{}, c.Origins...)
+			for i := 0; i < n; i++ {
+				c.Origins = append(c.Origins, "https://bad"+strconv.Itoa(i)+".example.com/")
+			}
+			c.Methods = append(append([]string{}, c.Methods...), "PURGE")
+		})
+		if n <= 512 {
+			add(func(c *cors.Config) {
+				c.Methods = append([]string{}, c.Methods...)
+				for i := 0; i < n; i++ {
+					c.Methods = append(c.Methods, "BAD METHOD"+strconv.Itoa(i))
+				}
+			})
+			add(func(c *cors.Config) {
+				c.RequestHeaders = append([]string{}, c.RequestHeaders...)
+				for i := 0; i < n; i++ {
+					c.RequestHeaders = append(c.RequestHeaders, "bad header"+strconv.Itoa(i))
+				}
+			})
+		}
+	}
+	// integers that wrap to something acceptable when multiplied by a unit or narrowed (time.Second = 1e9, 1e6, 1e3;
+	// 8, 16 and 32-bit narrowing)
+	for _, v := range wrapInts(600) {
+		v := v
+		add(func(c *cors.Config) { c.MaxAgeInSeconds = v })
+	}
+	for _, v := range wrapInts(204) {
+		v := v
+		add(func(c *cors.Config) { c.PreflightSuccessStatus = v })
+	}
+	return out
+}
+
+// wrapInts: out-of-range integers that become the in-range value m after a multiplication by a unit modulo 2^64 or a
+// narrowing conversion
+func wrapInts(m int) []int {
+	out := []int{m + 1<<8, m + 1<<16, m + 1<<32, m - 1<<32, m + 1<<55, m + 1<<56, m + 3<<55, m + 1<<62}
+	// v * unit = m * unit (mod 2^64)  <=>  v = m + k * 2^64 / gcd(unit, 2^64)
+	for _, tz := range []uint{9, 6, 3} { // 1e9 = 2^9 * 5^9, 1e6 = 2^6 * 5^6, 1e3 = 2^3 * 5^3
+		out = append(out, m+1<<(64-tz-1), m+1<<(64-tz))
+	}
 	return out
 }
 
